@@ -362,16 +362,18 @@ func installExternals() {
 		X.st.Reach["frozen-cells"] = n
 		return nil
 	})
-	vp("Unfreeze", func(fr *frame, args []value) value {
-		for p, f := range guarded {
-			if f&flagFrozen != 0 {
-				if f == flagFrozen {
-					delete(guarded, p)
-				} else {
-					guarded[p] = f &^ flagFrozen
-				}
-			}
+	vp("FreezeFresh", func(fr *frame, args []value) value {
+		var roots []value
+		for _, a := range args[0].([]value) {
+			roots = append(roots, a)
 		}
+		n := freezeReachable0(fr.i, roots, "github.com/yuin/goldmark")
+		guardOn = true
+		X.st.Reach["frozen-cells"] = n
+		return nil
+	})
+	vp("Unfreeze", func(fr *frame, args []value) value {
+		frozenCells = nil
 		frozenMaps = nil
 		return nil
 	})
